@@ -7,9 +7,9 @@ import Model.Base.Bytes
 namespace Spec.Name
 open Bytes
 
-def slash : UInt8 := 47
-def dash : UInt8 := 45
-def eqc : UInt8 := 61
+abbrev slash : UInt8 := 47
+abbrev dash : UInt8 := 45
+abbrev eqc : UInt8 := 61
 
 /-- The trailing GOMAXPROCS part: `-` followed by one or more digits at the very end. -/
 def gmpSplit (n : Bytes) : Bytes × Option Bytes :=
@@ -58,9 +58,12 @@ def subname (k : Bytes) (ps : List Bytes) : Bytes :=
   | some p => p.drop (k.length + 1)
   | none => []
 
+/-- "/gomaxprocs" -/
+def gomaxprocsKey : Bytes := [47, 103, 111, 109, 97, 120, 112, 114, 111, 99, 115]
+
 def gomaxprocs (ps : List Bytes) : Bytes :=
   match ps.getLast? with
-  | some l => if isGmpPart l then l.drop 1 else subname (Bytes.ofString "/gomaxprocs") ps
+  | some l => if isGmpPart l then l.drop 1 else subname gomaxprocsKey ps
   | none => []
 
 end Spec.Name
